@@ -48,7 +48,7 @@ SEPS = ["", ".", "-", "_"]
 
 def plan(tier, seed):
     n = 16 if tier == "quick" else 64
-    per = 2500 if tier == "quick" else 40000
+    per = 2500 if tier == "quick" else 90000
     return [{"seed": seed * 1000 + i, "n": per, "grid": i} for i in range(n)]
 
 
